@@ -300,10 +300,10 @@ func C13(p *core.Program, r *core.Report) {
 	atomSkip := o + `.SkipPagination`
 	atomNoURL := o + `.OriginalURL == nil`
 	wantAtoms := map[string]bool{
-		`$0.Type == html.ElementNode`:        true,
-		`$1 == nil`:                          true,
-		`dom.QuerySelector($0,"*") == nil`:   true,
-		atomNoURL:                            true,
+		`$0.Type == html.ElementNode`:      true,
+		`$1 == nil`:                        true,
+		`dom.QuerySelector($0,"*") == nil`: true,
+		atomNoURL:                          true,
 		o + `.PaginationAlgo == distiller.PageNumber`: true,
 		atomSkip: true,
 	}
